@@ -73,7 +73,7 @@ def gen_program(rng, name, forced_widths):
     n_nodes = rng.choice([0, 1, 2, 3, 4])
     nodes = ["Node%s%d" % (chr(65 + rng.randrange(26)), i) for i in range(n_nodes)]
     with_sendtypes = rng.random() < 0.6 and n_nodes > 0
-    n_msgs = rng.randrange(2, 7)
+    n_msgs = max(rng.randrange(2, 7), len(forced_widths))
     msgs = []
     ids_used = set()
     forced = list(forced_widths)
@@ -90,7 +90,8 @@ def gen_program(rng, name, forced_widths):
                 ids_used.add(m.id)
                 break
         m.length = rng.choice([8, 8, 8, 8, 7, 6, 5, 4, 3, 2, 1, 0])
-        if forced and m.length * 8 < max(forced[:1] + [0]):
+        my_force = forced.pop(0) if forced else None
+        if my_force is not None:
             m.length = 8
         m.sender = rng.choice(nodes) if nodes and rng.random() < 0.8 else "Vector__XXX"
         m.desc = rng.choice(["", "", "message %d comment" % mi, "with \\\"quote\\\" inside"])
@@ -101,6 +102,31 @@ def gen_program(rng, name, forced_widths):
         nbits = m.length * 8
         used_plain = set()       # positions of non-multiplexed signals and the multiplexer
         used_by_sel = {}         # selector -> positions
+        if my_force is not None:
+            # the forced shape of this message is placed first, at a position where it certainly fits
+            fl, fbe, fkind = my_force if isinstance(my_force, tuple) else (my_force, rng.random() < 0.5, rng.choice(["signed", "unsigned"]))
+            s = Sig()
+            s.name = "Forced%d" % mi
+            s.length = fl
+            for _ in range(200):
+                t = rng.randrange(0, 64 - fl + 1)
+                if fbe:
+                    start = 8 * (t // 8) + 7 - t % 8
+                    pos = be_positions(start, fl)
+                else:
+                    start = t
+                    pos = le_positions(start, fl)
+                if not any(p in used_plain for p in pos):
+                    break
+            else:
+                pos = None
+            if pos is not None:
+                s.be, s.start = fbe, start
+                s.muxed, s.muxval, s.is_mux = False, 0, False
+                s.float = fkind == "float" and fl == 32
+                s.signed = fkind == "signed" and not s.float
+                used_plain.update(pos)
+                m.signals.append(s)
         has_mux = nbits >= 16 and rng.random() < 0.45
         mux = None
         if has_mux:
@@ -118,10 +144,7 @@ def gen_program(rng, name, forced_widths):
         for si in range(n_sigs):
             s = Sig()
             s.name = "Sig%s%d" % (chr(65 + rng.randrange(26)), si)
-            if forced and forced[0] <= nbits:
-                s.length = forced.pop(0)
-            else:
-                s.length = rng.choice([1, 1, 2, 3, 4, 7, 8, 9, 12, 15, 16, 17, 24, 31, 32, 33, 40, 48, 52, 63, 64])
+            s.length = rng.choice([1, 1, 2, 3, 4, 7, 8, 9, 12, 15, 16, 17, 24, 31, 32, 33, 40, 48, 52, 63, 64])
             if s.length > nbits:
                 continue
             s.muxed = mux is not None and rng.random() < 0.5
@@ -330,11 +353,18 @@ def gen_batch(seed, count):
     forced = []
     for w in WIDTH_BOUNDARIES:
         forced.append(w)
+    # shapes every batch must contain: float32 in both byte orders, wide signed/unsigned in both byte orders
+    for be in (False, True):
+        forced.append((32, be, "float"))
+        for w in (33, 63, 64):
+            forced.append((w, be, "signed"))
+            forced.append((w, be, "unsigned"))
+        forced.append((12, be, "signed"))
     rng.shuffle(forced)
-    per = max(1, len(forced) // max(1, count - 1))
+    per = max(1, -(-len(forced) // max(1, count)))
     for i in range(count):
         name = "p%d" % i
-        fw = forced[i * per:(i + 1) * per] if i < count - 1 else forced[i * per:]
+        fw = forced[i * per:(i + 1) * per]
         text, db, summary = gen_program(rng, name, fw)
         progs.append((name, text, db, summary))
     return progs
